@@ -1110,8 +1110,8 @@ def run(ctx: vlib.Ctx):
         # a proof obligation or a correspondence broke and the normal budget found no unlisted failing input:
         # search harder before reporting no-failing-input-found
         ctx.notes.append("extended search after a broken obligation/correspondence")
-        history_part(ctx, n_hist=ctx.budget(250, 600), tag="_ext")
-        CD.codec_part(ctx, extra=ctx.budget(120, 300))
+        history_part(ctx, n_hist=ctx.budget(90, 400), tag="_ext")
+        CD.codec_part(ctx, extra=ctx.budget(40, 200))
 
 
 def coqchk(ctx: vlib.Ctx):
